@@ -14,6 +14,16 @@ CLAIMED = {
              ref='DESIGN.md §4 C07', note='Kernel level; the into-destination statement protocol is outside.  parse::<f64>/from_str_radix digits are std (uninterpreted).'),
  'C10': dict(text='Self-composition over HashMap iteration order: Val::join, Display for arrays and array equality are executed from MIR under the insertion order and under every other permutation of a 2..3-entry dictionary; z3 asserts identical observables.  Plus a regenerated inventory of every hash-container iteration site in the crate MIR; an unanalysed site makes the check inconclusive.',
              ref='DESIGN.md §4 C10', note='Kernel level; process-level repeatability is only used for replay (48 fresh processes per profile).'),
+ 'C11': dict(text='Bounded model checking of PoeticNumberLiteral::compute_value / word_len / the suffix-grouping iterator from MIR: for literals of 1..=6 elements with symbolic element kinds and symbolic word lengths z3 shows the returned floating-point term equals the reference sum of (length mod 10) x 10^position; word_len over symbolic characters; the <=4 ulp / integer-exact bound for 1..=3 (thorough 4) symbolic digits by bit-blasted FP queries.',
+             ref='DESIGN.md §4 C11', note='Numeric half only (the poetic string half needs string-level parsing).  Well-formedness of the element list (no leading suffix) is assumed here and is the parser\'s obligation.'),
+ 'C16': dict(text='Symbolic execution of the real default traversal (VisitExpr / VisitProgram defaults, ExprVisitorRunner, combine_all) with a VM-only visitor that overrides nothing: for every AST node kind, trees with one free level below it, every callback entry is compared with a reference pre-order, a failure is injected at every callback index, and the folded ListBuilder result is checked.',
+             ref='DESIGN.md §4 C16', note='Tree shapes are solver-forked decisions (no symbolic payload matters to traversal); composition over node kinds is by induction.  Replay is on the VM (a native recording visitor is not built).'),
+ 'C17': dict(text='Bounded model checking of NumericConstantFolder / SimpleStringConstantFolder against ProduceVal on the same lazily generated expression trees (root + 1/2 free levels, symbolic operators, all doubles, all strings): z3 shows a folded value is bit-identical to the evaluated value, that pure arithmetic trees fold and that state-reading trees do not.',
+             ref='DESIGN.md §4 C17', note='Evaluator runs with an environment that must not be touched.'),
+ 'C18': dict(text='Bounded model checking of BoringAssignmentPass on one statement of every form with the folded constant rendered as ANY text f64::Display may produce (environment stub): reported/not reported, target, value, line, and the poetic words decoded by the digit rule must spell the value; no panic/UB edge.',
+             ref='DESIGN.md §4 C18', note='The suggestion is not re-parsed by the real parser (string-level); its words are decoded with the digit rule that C11 ties to compute_value.'),
+ 'C19': dict(text='Bounded model checking of the repeated-identifier pass on one statement of every kind with symbolic names (any two mentions may or may not coincide) against the reference rule, and of Linter::run ordering (stable by line, ties in pass order) on two-statement programs over all line placements; program untouched; no panic edge.',
+             ref='DESIGN.md §4 C19', note='sort_by_key modelled as the unique stable order.'),
 }
 NA = {
 }
